@@ -241,3 +241,57 @@ def C17(run):
     run.assumptions += ["robustness exploration with a model-derived input space: no proof of totality",
                         "heap ceiling sampled (1 in 200 requests), watchdog 2 s"]
     run.level = "exploration"
+
+
+# ------------------------------------------------------------------ end-to-end system driver (C01 C04 C07 C15-e2e C16)
+def _system_trace(run, prefix, kind="", n=None):
+    tr = _t(run, "system-%s.ndjson" % (kind or "all"))
+    extra = []
+    if kind:
+        extra += ["-x", kind]
+    if n:
+        extra += ["-n", str(n)]
+    info = run.harness("system", tr, extra=extra, timeout=3000)
+    v = run.validate_sharded("TraceSystem", tr, boundary='"ev":"prog"', shards=12, xss="512m")
+    run.judge(v, tr, "system-" + (kind or "all"), only=prefix)
+    run.cov["distinct_nontrivial"] += info["distinct_nontrivial"]
+    run.sample(tr, pick={0, 1})
+    return tr, info
+
+
+SYSTEM_RULE = ("system driver: random module programs for the verifvm runtime (source mapper with sparse/skipped outputs, store of a "
+               "random policy and value type - possibly clock-only or params-only -, optional second store reading the first in get or "
+               "deltas mode, optional block index + block-filtered output mapper, differing initial blocks), each run through the REAL "
+               "tier1 service (request resolution, plan, scheduler, in-process tier2 jobs with harness-controlled completion order and no "
+               "ramp-up, squasher, walker, linear pipeline) on a real local state store; per scenario a sequence of requests on one "
+               "cache directory: (strategies) 3..5 production/development requests with random start/stop/final block/workers; "
+               "(subsets) a complete production run then 4 re-runs on random subsets of the files it left plus crash debris (*.tmp); "
+               "(resume) a request then 3 resumptions from cursors of delivered blocks. Judged by TraceSystem.tla against SeqExec "
+               "(Exec.tla). Non-trivial = more than one data message; distinct by content.")
+
+
+def _system_common(run, prefix, kind, mc=True):
+    q = run.tier == "quick"
+    _system_trace(run, prefix, kind, n=(18 if q else 600))
+    run.cov["rule"] = SYSTEM_RULE
+    run.assumptions += ["module programs are DSL programs interpreted by harness/verifvm.go, whose semantics is Exec.tla (trusted: ~300 lines "
+                        "of Go against ~150 lines of TLA+); the wazero runtime is out of scope",
+                        "block source = the harness's final chain (ids '<n>a'); chains with forks are exercised by C03",
+                        "numbers are small integers (no floating-point rounding)"]
+
+
+def C01(run):
+    run.model_check("MCStore", "MCStore_add_quick.cfg", workers=8)      # L3 of the compositional argument (C02)
+    run.model_check("MCPlan", "MCPlan_quick.cfg", workers=8)
+    _system_common(run, "C01:", "")
+
+
+def C04(run):
+    run.model_check("MCPlan", "MCPlan_quick.cfg", workers=8)
+    _system_common(run, "C04:", "resume")
+    _system_trace(run, "C04:", "strategies", n=(6 if run.tier == "quick" else 300))
+
+
+def C07(run):
+    run.model_check("MCSnap", "MCSnap_quick.cfg", workers=8)
+    _system_common(run, "C07:", "subsets")
